@@ -93,7 +93,7 @@ Definition step_successful (s : step) : bool := forallb log_successful (st_logs 
 (* Result.is_successful: `if self.status:` is a truthiness test: None and "" both mean "not finished" *)
 Definition result_successful (r : result) : bool :=
   match r_status r with
-  | Some (_ :: _ as st) => str_eqb st s_passed || str_eqb st s_disabled
+  | Some ((_ :: _) as st) => str_eqb st s_passed || str_eqb st s_disabled
   | _ => forallb step_successful (r_steps r)
   end.
 
